@@ -16,3 +16,9 @@ From NQ Require Base.MiniC gen.CGen Tie.GenCommon Tie.Gen_numbers.
 Lemma tie_generated_squareroot : forall x : Z, 0 <= x < 2 ^ 32 ->
   GenCommon.retval (CGen.C_squareroot.run 17 x) = Some (Sched.squareroot x).
 Proof. exact Gen_numbers.gen_squareroot_eq. Qed.
+(* nextretry() as generated from today's qmail-send.c (with its file-scope recent and chanskip[]) is the model's nextretry *)
+From NQ Require Tie.Gen_sched.
+Lemma tie_generated_nextretry : forall birth recent c : Z, 0 <= birth < 2 ^ 40 -> 0 <= recent < 2 ^ 40 -> recent - birth < 2 ^ 32 ->
+  c = 0 \/ c = 1 ->
+  GenCommon.retval (CGen.C_nextretry.run 17 birth c recent [10; 20]) = Some (Sched.nextretry birth recent (Z.to_nat c)).
+Proof. exact Gen_sched.gen_nextretry_eq. Qed.
